@@ -11,6 +11,7 @@ from indexing import (cq_key, cq_rhs, expected_getitem, in_region, normalise, ob
                       region_dims)
 
 ID = "C06"
+THOROUGH_ROUNDS = 2      # rounds of generate() in the thorough tier (new random draws each round)
 COQ_MODULE = "Corr.Indexing"
 RULE = ("arrays over every ordered dimension subset (rank <= 3 quick, <= 4 thorough) of universes with length patterns "
         "(3,2,3), (2,2,2) [thorough: (2,3,2,2)], crossed with EVERY assignment of a selector kind "
